@@ -412,6 +412,23 @@ flavour_matrix.cache = {}
 flavour_matrix.refs = {}
 
 
+def exact_p1_stiffness(grid, space):
+    """Exact P1 Laplace-Beltrami matrix: sum_e area_e grad(phi_i).grad(phi_j), gradients from the vertex coordinates."""
+    n = space.global_dof_count
+    k = np.zeros((n, n))
+    ref = np.array([[-1.0, 1.0, 0.0], [-1.0, 0.0, 1.0]])          # reference gradients (2 x 3)
+    for e in space.support_elements:
+        v = [grid.vertices[:, grid.elements[j, e]] for j in range(3)]
+        jac = np.column_stack([v[1] - v[0], v[2] - v[0]])             # 3 x 2
+        g = jac @ np.linalg.inv(jac.T @ jac) @ ref                    # 3 x 3: column i = surface gradient of phi_i
+        a = grid.volumes[e]
+        for i in range(3):
+            for j in range(3):
+                k[space.local2global[e, i], space.local2global[e, j]] += \
+                    a * (g[:, i] @ g[:, j]) * space.local_multipliers[e, i] * space.local_multipliers[e, j]
+    return k
+
+
 def run_search(cfg):
     import bempp_cl.api as api
     seed = int(os.environ.get("VERIF_SEED", "0"))
@@ -467,6 +484,13 @@ def run_search(cfg):
             e1 = float(np.abs(k - k.T).max()) / scale
             e2 = float(np.abs(k @ np.ones(k.shape[1])).max()) / scale
             ev = np.linalg.eigvalsh(0.5 * (k + k.T))
+            ex = exact_p1_stiffness(grid, sp)
+            e3 = float(np.abs(k - ex).max()) / float(np.abs(ex).max())
+            note("lb_exact_entries", e3)
+            if not e3 <= 1e-12:
+                fails.append({"signature": "C13:laplace_beltrami entries differ from exact surface-gradient integrals",
+                              "what": "max relative entry error %.3e at order %d" % (e3, order),
+                              "data": {"grid": gname, "order": order}})
             note("lb_symmetry", e1)
             note("lb_constants", e2)
             note("lb_min_eig_neg", max(0.0, -ev.min() / scale))
